@@ -17,8 +17,14 @@ from . import common, meshes, runs, stepcorr
 
 
 def j_scale(dev, current_units):
+    """dimensionless value of one current unit per length unit: 4 (I/L) / K0 with K0 = 4 xi Bc2 / (mu_0 Lambda) computed here
+    from the layer's numbers (not read from the device, whose derived scales are part of what is checked)"""
     ureg = dev.ureg
-    J = 4 * ((ureg(current_units) / ureg(dev.length_units)) / dev.K0).to_base_units()
+    L = ureg(dev.length_units)
+    xi, lam, d = (dev.layer.coherence_length * L, dev.layer.london_lambda * L, dev.layer.thickness * L)
+    Bc2 = ureg("Phi_0") / (2 * np.pi * xi ** 2)
+    K0 = 4 * xi * Bc2 / (ureg("mu_0") * lam ** 2 / d)
+    J = 4 * ((ureg(current_units) / L) / K0).to_base_units()
     return float(J.magnitude)
 
 
@@ -292,6 +298,11 @@ def run(rep: common.Report, tier: str, seed: int, replay=None) -> int:
     devh.film = devh.film.resample(len(devh.film.points) + 37)
     devh.make_mesh(max_edge_length=0.7, smooth=2)
     run_case(rep, rng, 101, devh, cfgh, model_records=False)
+    # ... then a parameter sweep on the same object: the layer is changed in place and the device solved again; the
+    # injected current must follow the new material scales
+    devh.layer.london_lambda = devh.layer.london_lambda * rng.choice([0.5, 2.0, 3.0])
+    devh.layer.thickness = devh.layer.thickness * rng.choice([0.4, 1.0, 2.5])
+    run_case(rep, rng, 102, devh, cfgh, model_records=False)
     dev4 = meshes.make_device(rng, holes=0, terminals=4, max_edge_length=1.6)
     ndis += mu_boundary_corr(rep, rng, dev4, tier)
     ndis += mu_boundary_corr(rep, rng, dev4, tier, numpy_scalars=True)
